@@ -126,8 +126,12 @@ def wire_term_key(w: dict) -> Tuple:
 
 
 def terms_close(w1: dict, w2: dict, rtol: float = 1e-9) -> bool:
-    """structure exactly (same variables), numbers within rtol*max(1,|x|)"""
+    """structure exactly (same variables), numbers within rtol*max(1,|x|).  A coefficient below rtol*max(1, largest
+    coefficient of the term) counts as absent: it is float cancellation residue (exact arithmetic gives 0, or vice versa)."""
     (c1, k1), (c2, k2) = wire_term_key(w1), wire_term_key(w2)
+    big = max([1] + [abs(a) for _, a in c1] + [abs(a) for _, a in c2])
+    c1 = [(x, a) for x, a in c1 if abs(a) > rtol * big]
+    c2 = [(x, a) for x, a in c2 if abs(a) > rtol * big]
     if [x for x, _ in c1] != [x for x, _ in c2]:
         return False
     for (_, a), (_, b) in zip(c1, c2):
